@@ -225,6 +225,10 @@ Theorem C18_parallax_displacement_bound : forall dec H lat h dist, par_C h < Rab
   /\ 0 < ux * vx + 0 * vy + uz * vz.
 Proof. exact parallax_displacement. Qed.
 
+(* the hypothesis distance > C holds on the whole range of the property (|h| <= 9000 m, distance >= 1e-3 AU) *)
+Theorem C18_parallax_range : forall h dist, Rabs h <= 9000 -> 1 / 1000 <= dist -> par_C h < Rabs dist.
+Proof. exact parallax_range. Qed.
+
 (* the observer's geocentric distance: rho <= 1 + |h|/a for every latitude, 0 <= f <= 1 *)
 Theorem C18_rho_bound : forall a f h phi, 0 <= f <= 1 ->
   sqrt (rho_cos a f h phi * rho_cos a f h phi + rho_sin a f h phi * rho_sin a f h phi) <= 1 + Rabs (h / a).
@@ -280,6 +284,7 @@ Redirect "C18_distance_great_circle.assumptions" Print Assumptions C18_distance_
 Redirect "C18_distance_great_circle_angle.assumptions" Print Assumptions C18_distance_great_circle_angle.
 Redirect "C18_builtin_flattening.assumptions" Print Assumptions C18_builtin_flattening.
 Redirect "C18_parallax_displacement_bound.assumptions" Print Assumptions C18_parallax_displacement_bound.
+Redirect "C18_parallax_range.assumptions" Print Assumptions C18_parallax_range.
 Redirect "C18_rho_bound.assumptions" Print Assumptions C18_rho_bound.
 Redirect "C18_parallax_dalpha_tan.assumptions" Print Assumptions C18_parallax_dalpha_tan.
 Redirect "C18_parallax_correction_closed_form.assumptions" Print Assumptions C18_parallax_correction_closed_form.
